@@ -9,8 +9,54 @@ from evalr import (Interp, Frame, OuterSink, RefV, Cell, StructV, EnumV, SeqV, T
 
 ABSTRACT = ('aml::create_pkg_length',)
 
+def ctor_closed(facts):
+    """Structures of spec/layouts.py CTOR_FIELDS whose private state no longer has the fields the specification names
+    (the representation changed, e.g. several bools folded into one bit set).  When every value of such a type can only
+    come from its constructor - all fields private, no struct literal outside the constructor, no assignment to a field,
+    no `&mut self` method - a symbolic value of the type is the constructor applied to symbolic arguments, named after
+    the fields the specification reads them from.  -> {type: (constructor def, {parameter: specified field})}"""
+    if hasattr(facts, '_ctor_closed'): return facts._ctor_closed
+    out = {}
+    try:
+        import layouts as SPEC
+        table = SPEC.CTOR_FIELDS
+    except Exception:
+        table = {}
+    def has(e, pred):
+        if isinstance(e, dict):
+            if pred(e): return True
+            return any(has(v, pred) for v in e.values())
+        if isinstance(e, list): return any(has(v, pred) for v in e)
+        return False
+    for (ty, ctor), fields in table.items():
+        adt = facts.adt(ty)
+        if not adt or adt.get('kind') != 'Struct': continue
+        have = {fd['name'] for fd in adt['variants'][0]['fields']}
+        if all(k in have for k in fields): continue                  # the usual case: the specified fields exist
+        if any(fd.get('vis') != 'priv' for fd in adt['variants'][0]['fields']): continue
+        cb = None
+        for d, b in facts.bodies.items():
+            if norm_ty(b.get('self_ty') or '') == ty and b.get('name') == ctor and not b.get('trait'): cb = b
+        if cb is None: continue
+        closed = True
+        for d, b in facts.bodies.items():
+            if b.get('body') is None: continue
+            lit = has(b['body'], lambda e: e.get('k') == 'Adt' and norm_ty(e.get('ty', '')) == ty)
+            asg = has(b['body'], lambda e: e.get('k') in ('Assign', 'AssignOp') and isinstance(e.get('lhs'), dict) and e['lhs'].get('k') == 'Field'
+                      and isinstance(e['lhs'].get('lhs'), dict) and strip_refs(norm_ty(e['lhs']['lhs'].get('ty', ''))) == ty)
+            if (lit and d != cb['def']) or asg: closed = False
+            if norm_ty(b.get('self_ty') or '') == ty and not b.get('trait') and classify(b, b['self_ty']) == 'mut': closed = False
+        if not closed: continue
+        pmap = {}
+        for fld, want in fields.items():
+            if isinstance(want, str) and want.startswith('='): pmap[want[1:]] = fld
+        if all(n in pmap for n, _ in params_of(cb)): out[ty] = (cb['def'], pmap)
+    facts._ctor_closed = out
+    return out
+
 def new_interp(facts, abstract=ABSTRACT):
     I = Interp(facts, abstract)
+    I.ctor_closed = ctor_closed(facts)
     I.st.frames.append(Frame('<root>'))
     sym.CTX = {}
     return I
